@@ -692,6 +692,20 @@ func c08ParseVerbatim(c *Ctx) {
 			if call, ok := ast.Unparen(r.Results[0]).(*ast.CallExpr); ok && len(call.Args) >= 1 {
 				pathArg = call.Args[0]
 			}
+			// the node built by a literal: the value of its path member (the string-typed one)
+			res := ast.Unparen(r.Results[0])
+			if ue, ok := res.(*ast.UnaryExpr); ok && ue.Op == token.AND {
+				res = ast.Unparen(ue.X)
+			}
+			if cl, ok := res.(*ast.CompositeLit); ok {
+				for _, e := range cl.Elts {
+					if kv, ok := e.(*ast.KeyValueExpr); ok {
+						if b, ok := info.TypeOf(kv.Value).Underlying().(*types.Basic); ok && b.Kind() == types.String {
+							pathArg = kv.Value
+						}
+					}
+				}
+			}
 		}
 		return true
 	})
